@@ -15,6 +15,10 @@ class AnalysisError(Exception):
     pass
 
 
+class FloorError(AnalysisError):
+    """a rule matched fewer instances than were confirmed for this code base"""
+
+
 class Finding:
     def __init__(self, prop, rule, construct, key, why, relpath, line, sig=None):
         self.prop = prop
@@ -125,7 +129,7 @@ class Run:
     def floor(self, name, count, minimum):
         self.floors[name] = {'count': count, 'floor': minimum}
         if count < minimum:
-            raise AnalysisError('floor %s: matched %d instances, fewer than the %d '
+            raise FloorError('floor %s: matched %d instances, fewer than the %d '
                                 'confirmed for this code base - rule would pass '
                                 'vacuously' % (name, count, minimum))
 
